@@ -27,7 +27,9 @@ def run(prog, chk):
     chk.rule('R16.E', 'final-field nesting: every visitor of a statement with sub-statements raises the nesting counter before visiting any child')
     chk.rule('R16.D', 'context discipline: a context member a visitor sets for the body it analyses is saved first and restored on every normal exit')
     fns = [f for f in prog.functions if f.body and f.file.endswith('semantic_analyser.cpp')]
+    chk.rule('R16.F', 'sibling agreement: every constructor-argument check instantiates the parameter list of a generic class (or matches an empty list)')
     _context_discipline(prog, chk, fns)
+    _ctor_params_instantiated(prog, chk, fns)
     _nesting_counter_rule(prog, chk, fns)
     visits = {}
     for f in fns:
@@ -362,6 +364,80 @@ def _relation(prog, chk, named, fns):
 CONTEXT_SIGNALS = {
     ('visit(ReturnStatement)', 'm_foundReturn'): 'a signal read by the enclosing function/method visitor after it analysed the body (which saves and restores it)',
 }
+
+
+
+def _ctor_params_instantiated(prog, chk, fns):
+    """R16.F — sibling agreement of the constructor-argument checks.  The analyser matches arguments against a constructor of a class
+    at three kinds of site (`new C<…>(…)`, `super(…)`, the implicit `super()`); the constructors of a generic class are recorded
+    with the class's own type parameters, so a site instantiates the parameter list (substituteMany) before costing the arguments —
+    or matches against an empty argument list, where only a parameter-less constructor fits and there is nothing to instantiate.
+    A site that costs the raw list compares `A` with the argument's type by name: `class Child<X, Y> extends Pair<X, Y> { …
+    super(x, y) … }` is then rejected although every argument has the parameter's type."""
+    subst = {f.name for f in fns if f.short == 'substituteMany'}
+    cost = {f.name for f in fns if f.short in ('paramsConversionCost', 'paramsAssignable')}
+    if not subst or not cost:
+        raise AnalysisBroken('analyser helpers substituteMany / paramsConversionCost not found')
+    n = 0
+    from ..kernels import enclosing_stmts
+    for f in fns:
+        for lp in SX.walk(f.body, into_lambdas=False):
+            if lp.get('k') != 'forrange' or SX.member_chain(SX.strip(lp['range']))[1][-1:] != ['constructors']:
+                continue
+            vid = lp['var']['id']
+            for c in SX.walk(lp['body'], into_lambdas=False):
+                if c.get('k') != 'mcall' or c.get('callee') not in cost:
+                    continue
+                a = SX.real_args(c)
+                if len(a) != 2:
+                    continue
+                n += 1
+                a0, a1 = SX.strip(a[0]), SX.strip(a[1])
+                ok = False
+                how = ''
+                if SX.is_node(a0) and a0.get('k') == 'ref':
+                    # a local: every definition that reaches here came through substituteMany
+                    for w_ in SX.walk(lp['body'], into_lambdas=False):
+                        w = SX.write_target(w_)
+                        if w and SX.strip(w[0]).get('id') == a0['id'] and any(x.get('k') == 'mcall' and x.get('callee') in subst for x in SX.walk(w[1])):
+                            ok = True
+                            how = 'instantiated'
+                    for d in SX.walk(lp['body'], into_lambdas=False):
+                        if d['k'] == 'var' and d['id'] == a0['id'] and SX.is_node(d.get('init')) and any(x.get('k') == 'mcall' and x.get('callee') in subst for x in SX.walk(d['init'])):
+                            ok = True
+                            how = 'instantiated'
+                if not ok and SX.is_node(a1) and a1.get('k') == 'ref':
+                    decl = [d for d in SX.walk(f.body, into_lambdas=False) if d['k'] == 'var' and d['id'] == a1['id']]
+                    touched = [x for x in SX.walk(f.body, into_lambdas=False) if (x.get('k') == 'mcall' and not x.get('constm', True) and SX.is_node(SX.strip(x.get('obj')))
+                                                                                  and SX.strip(x['obj']).get('id') == a1['id']) or
+                               ((SX.write_target(x) or [None])[0] is not None and SX.strip(SX.write_target(x)[0]).get('id') == a1['id'])]
+                    if decl and 'vector' in decl[0]['type'] and not touched:
+                        i0 = SX.strip(decl[0].get('init')) if SX.is_node(decl[0].get('init')) else None
+                        if i0 is None or (i0.get('k') in ('construct', 'initlist') and not (SX.real_args(i0) if i0['k'] == 'construct' else i0.get('items'))):
+                            ok = True
+                            how = 'empty argument list'
+                # label: the diagnostic raised when nothing matched (first throw after the loop in the enclosing block)
+                label = '?'
+                chain = enclosing_stmts(f.body, lp) + [lp]
+                for depth in range(len(chain) - 2, -1, -1):
+                    blk, child = chain[depth], chain[depth + 1]
+                    if blk.get('k') != 'block':
+                        continue
+                    pos = [i for i, x in enumerate(blk['body']) if x is child]
+                    if not pos:
+                        continue
+                    for st in blk['body'][pos[0] + 1:]:
+                        lits = [x['v'] for x in SX.walk(st, into_lambdas=False) if x['k'] == 'str' and len(x['v']) > 8]
+                        if lits:
+                            label = lits[0]
+                            break
+                    if label != '?':
+                        break
+                chk.ob('R16.F', f, c.get('ln', f.ln), ok,
+                       'the arguments are costed against the constructor\'s raw parameter list (the class\'s own type-parameter names), not the list instantiated with the type arguments '
+                       'in force: `class Child<X, Y> extends Pair<X, Y> { … super(x, y) … }` is rejected although every argument has the parameter\'s type',
+                       key='ctor-params:' + label[:60])
+    chk.count('constructor-argument checks', n, 3)
 
 
 def _nesting_counter_rule(prog, chk, fns):
